@@ -286,10 +286,8 @@ theorem teardown_tframe (hF : TFrame F) (w : World) (i : Nat) (s : Sess) :
     WFrame F (AgentD.unreg w i s.id) (teardown w i s).1 := by
   rw [AgentD.teardown_eq]
   split
+  · exact WFrame.after (sessDelete_tframe hF _ _ _) (tdBase_tframe hF w i s)
   · exact tdBase_tframe hF w i s
-  · split
-    · exact tdBase_tframe hF w i s
-    · exact WFrame.after (sessDelete_tframe hF _ _ _) (tdBase_tframe hF w i s)
 
 end tframes
 
@@ -366,12 +364,10 @@ theorem teardown_subs (w : World) (i : Nat) (hi : i < w.nodes.length) (s : Sess)
   have hb := (tdBase_subs w i hi s hq).2.2.2
   rw [AgentD.teardown_eq]
   split
+  · simp only
+    rw [AgentD.sessDelete_node_subs]
+    exact hb
   · exact hb
-  · split
-    · exact hb
-    · simp only
-      rw [AgentD.sessDelete_node_subs]
-      exact hb
 
 /-- the will is not suppressed when the session's record is still the current one for its client id -/
 theorem teardown_continue (w : World) (i : Nat) (hi : i < w.nodes.length) (s : Sess)
@@ -383,11 +379,8 @@ theorem teardown_continue (w : World) (i : Nat) (hi : i < w.nodes.length) (s : S
       sessByClientID (w.node i).dist s.mount s.client := by
     simp only [sessByClientID, sessFilter, hb]
   rw [AgentD.teardown_eq, he]
-  split
-  · rfl
-  · rename_i md rest hl
-    have := hcur md (by rw [hl]; exact List.mem_cons_self ..)
-    simp [this]
+  simp only [List.any_eq_false, bne_iff_ne, ne_eq, Decidable.not_not]
+  exact hcur
 
 theorem subsLookup_of_mem {m : List (String × List Sub)} (hk : (m.map (·.1)).Nodup) {kl : String × List Sub}
     (h : kl ∈ m) : subsLookup kl.1 m = kl.2 := by
@@ -861,10 +854,8 @@ theorem kinv_teardown {w : World} (h : KInv w) (i : Nat) (s : Sess) : KInv (tear
   rw [teardown_eq]
   have hb := kinv_tdBase h i s
   split
+  · exact kinv_sessDelete hb _ _
   · exact hb
-  · split
-    · exact hb
-    · exact kinv_sessDelete hb _ _
 
 theorem kinv_shutdown {w : World} (h : KInv w) (i : Nat) (sid : String) :
     KInv (w.shutdownSession i sid) := by
